@@ -318,6 +318,22 @@ func checkFlattenOne(prop, tier string, seed int64) int {
 		rep.Extra["pipeline_model_run"] = map[string]any{"module": "MC_Flatten", "distinct_states": mc.Distinct, "states_generated": mc.Generated, "wall_s": mc.WallS,
 			"constants": mc.Constants, "invariants": []string{"InvC01Inductive", "InvC01", "InvC02", "InvC03", "InvC05", "InvC06", "InvC08", "InvIsPipeline", "InvLemmas"}}
 	}
+	if prop == "C06" {
+		// the removal loop as a state machine over every reference graph on 3 (thorough: 4) names: termination + fixpoint properties
+		names := "{a, b, c}"
+		if tier == "thorough" {
+			names = "{a, b, c, d}"
+		}
+		rl, _, rlErr := runMC("RemoveLoop", map[string]string{"Names": names}, 20*time.Minute, nWorkers())
+		if rlErr != nil || rl == nil || !rl.OK {
+			rep.HarnessErr = append(rep.HarnessErr, fmt.Sprintf("RemoveLoop model failed: %v", rlErr))
+		} else {
+			rep.States += rl.Distinct
+			rep.Transitions += rl.Generated
+			rep.Extra["removal_loop_model_run"] = map[string]any{"module": "RemoveLoop", "names": names, "distinct_states": rl.Distinct,
+				"invariants": []string{"AllUsed", "NoDangling", "RootsKept"}, "temporal": []string{"Shrinks (action property)", "Terminates (liveness under WF)"}}
+		}
+	}
 	// step-level conformance (L2): how many recorded runs are fully explained by the constructive operators of Flatten.tla
 	conform, stepChecked, drift := 0, 0, map[string]int{}
 	for _, run := range fc.runs {
